@@ -35,7 +35,7 @@ from clingo.ast import AST, ASTType, AggregateFunction
 
 from . import ser
 from .corr import Case
-from .inputs import parse, try_parse
+from .inputs import shared_minmax_elements, parse, try_parse
 
 IMPORTS = ["Model.Traverse", "Model.Corr", "Model.Globals", "Model.Dependency", "Model.MinMax"]
 FRAGMENT_MODE = bool(os.environ.get("MINMAX_FRAGMENT"))
@@ -117,6 +117,9 @@ def prepared(inputs, fam):
             continue
         if any(hash_order_sensitive(s) for s in pp):
             SKIPPED["hash_order"] += 1
+            continue
+        if shared_minmax_elements(pp):
+            SKIPPED["shared_elements"] = SKIPPED.get("shared_elements", 0) + 1
             continue
 
         def fresh(text=text):
